@@ -84,6 +84,10 @@ func c14(c *an.Ctx) {
 		ruleSameAliasAgreement(c, o)
 	})
 
+	c.Check("R-BOOL", "prepareQuery accepts __typename exactly when it has neither arguments nor sub-selections, without consulting the field table (objects and unions)", 2, func(o *an.O) {
+		ruleTypenameSelection(c, o)
+	})
+
 	c.Check("R-KEY", "object fields exactly as selected: a memoised sub-result of an expensive field is keyed by field, source and the selection itself", 1, func(o *an.O) { ruleWorkCacheKey(c, o) })
 	outputKinds := []string{"Enum", "List", "NonNull", "Object", "Scalar", "Union"}
 
